@@ -17,7 +17,7 @@ unproductive ones included) are compared bit for bit with the extracted MIRROR o
 (theories/C17/CostMirror.v), proved for all grammars and cost functions to terminate and to return the true
 minimum / maximum / u16::MAX for unbounded (C17_min_costs_fixed_exact, C17_max_costs_fixed_exact); a hang or a
 panic of the implementation where the mirror returns values is a violation; no known-finding class applies.
-COSTS_FIXED = False (the original functions): the four recorded defect classes are matched as known findings.
+COSTS_FIXED = True (the original functions): the four recorded defect classes are matched as known findings.
 """
 import itertools
 import os
@@ -30,7 +30,7 @@ U16MAX = 65535
 # False: /repo has the ORIGINAL rule_min_costs / rule_max_costs (known findings C17-min-cycle, C17-min-unproductive,
 #        C17-max-recursive, C17-max-early are expected and matched);
 # True:  /repo has the repaired functions of notes/C17-costs-fix.diff: exact comparison with the proved mirror, no known_key.
-COSTS_FIXED = False
+COSTS_FIXED = True
 # development aid (tools/scratch_eval.sh runs): GV_C17_COSTS_FIXED=1/0 overrides the flag for one process
 if os.environ.get("GV_C17_COSTS_FIXED") in ("0", "1"):
     COSTS_FIXED = os.environ["GV_C17_COSTS_FIXED"] == "1"
